@@ -233,6 +233,8 @@ class SyncLink:
             self.gw = m.SerialGateway("/dev/fake", reconnect_timeout=R, protocol_version=version)
         else:
             self.gw = m.TCPGateway("10.0.0.1", reconnect_timeout=R, protocol_version=version)
+            # a second, idle gateway object in the same process: gateways must not share mutable state
+            self.decoy = m.TCPGateway("10.0.0.2", reconnect_timeout=R, protocol_version=version)
         self.w.gw = self.gw
         w = self.w
         self.gw.on_conn_made = lambda g: (w.events.append(("made", w.now)), w.note(("made", w.now)))
